@@ -6,10 +6,12 @@ import SparseV.Model.Coo
 import SparseV.Generated.Umath
 namespace SparseV
 
-/-- `_get_broadcast_shape(shape1, shape2, is_result)`: zip from the right, `zip_longest` with 1 -/
+/-- `_get_broadcast_shape(shape1, shape2, is_result)`: with `is_result` an operand with more axes than
+the result shape is rejected first; then zip from the right, `zip_longest` with 1 -/
 def bshape2 (s1 s2 : List Nat) (isResult : Bool) : Except Err (List Nat) :=
   let r1 := s1.reverse
   let r2 := s2.reverse
+  if isResult && s1.length > s2.length then .error .value else
   if (List.zip r1 r2).all fun p => Gen.bcastOk p.1 p.2 isResult then
     let n := max r1.length r2.length
     .ok (((List.range n).map fun k => (Gen.bcastDim (r1.getD k 1) (r2.getD k 1)).toNat).reverse)
